@@ -1011,6 +1011,6 @@ def replay(ctx, payload):
 
 MANIFEST = {
     "text": "Lean theorems over the reals / Mathlib complex numbers for ALL masses, widths, momenta, radii and every L<=8 (and any number of partial waves / channels / resonances / poles), stated for the functions the current tree implements (BWR2 after repository commit a7b0d13, double-precision constants after 6f9a2f7): the Blatt-Weisskopf coefficient tables of breit_wigner.py and formula.py, re-extracted by running the real functions on every run, equal |theta_L(i w)|^2 of the reverse Bessel polynomial (exact integers, decide +kernel; plus BprimePolynomial(w^2) = normSq theta_L(i w) in C); Bprime(q0,q0)=1, Bprime_q2 = Bprime above threshold and positive below, Gamma = documented formula, Gamma(m0)=Gamma0; BW, BWR, BWR2, BWR_below, BWR_normal (principal root), BWR_coupling, BWR_LS(fix_bug1), MultiBWR, Flatte, FlatteC, exp, exp_com, one, x and GS_rho (including h, dh/dm^2, D, f of its docstring; dh_dsFun = d hFun/ds as HasDerivAt for equal daughter masses) equal their docstring formula as complex numbers; Im>0 and value i/(m0 Gamma0) at m0 for BW/BWR/BWR2; line shape x sympy denominator = 1 for BW, BWR, BWR_coupling, Flatte, FlatteC (all sheet bits set, real m above and below channel thresholds) and BWR_LS_dom = numeric denominator. Kept refutations: the BWR2 of the tree before a7b0d13 is PROVED to be the complex conjugate of the documented formula (BWR2legacy_*), and BWR_LS without fix_bug1 (the default, listed finding) to differ from its documentation. ROUND 3 (Props/C15c, C15d; every other registered model): FlatteGen / Flatte2 = 1/(m0^2 - m^2 + im_sign sum_i term_i) for every option setting and any number of channels, the default term = i g (q_i/m) m0 (m0/|q_i0|)(|q_i|/|q_i0|)^(2l) B_l'^2 (L<=8), cut_phsp term = 0 below the channel threshold and code/doc condition equivalent for m > |ma-mb|; LASS = m/(q cot d_B - i q) + e^(2 i d_B) m0 G0 (m0/q0)/((m0^2-m^2) - i m0 G0 (q/m)(m0/q0)) with |e^(2 i d_B)| = 1; MultiBW of the current tree is PROVED identical to MultiBWR (running width; listed finding) and the repaired one equals sum_k c_ik/(m_k^2 - m^2 - i m_k G_k) x barrier; Kmatrix = (beta0 + sum beta_i m_i G_i/(m_i^2-m^2))/(1 - i(K+alpha)) + KNR; KMatrixSingleChannel = P/(1 - iK) with every pole of K equal to m_i Gamma_i(m)/(m_i^2-m^2) (the running width of breit_wigner.Gamma), Im R = K Re R for real production couplings (any number of poles), elastic unitarity Im T = rho |T|^2 for T = K/(1 - i rho K); KmatrixSimple: K_ij = sum_a g_ia g_ja/(m_a^2 - s - i eps), one channel R = n P/(1 - i K rho n^2), two channels R_i = n_i x_i with (1 - i K rho n^2) x = P (adjugate solution proved to solve the system), the barrier factor is (q d)^l B'_l(q,1/d,d) (the docstring's q^l is a listed finding). Interpolation family: interp_c, interp_hist, interp1d3 / interp_l3, interp_lagrange, spline_c are linear in the node values for every node list and mass (R); on 6 exact rational node sets (4..8 nodes, uniform and non-uniform, decide +kernel over core Rat): the weights at the nodes are unit vectors (the interpolant passes through every choice of node values) and vanish outside the node range, the repaired interp1d3 stencil reproduces 1, x, x^2, x^3 while the stencil of the current tree is PROVED not to reproduce constants (weights sum to 17/16; listed finding); the spline coefficient tables spline_xi_matrix(nodes) re-extracted from the tree on every run satisfy the defining equations of the not-a-knot cubic spline exactly (interpolation, C1, C2, third-derivative continuity at the 2nd and last-but-one knot) and spline_c evaluated through them passes through the nodes; linear_npy is zero outside the node range. A registry inventory on every run reports any registered particle model that is neither modelled nor on the explicit no-documented-formula list.",
-    "note": "Model = templates/LineShape.lean.in + templates/LineShapeX.lean.in (round 3, same namespace) instantiated at R (proofs) and Float (execution), templates/InterpAmp.lean.in instantiated at R, Float and core Rat. Tie to the code: (T) coefficient tables (Blatt-Weisskopf, spline_xi_matrix) extracted by running the real functions, theorems re-checked by lake build each run; (C) every tf_pwa.breit_wigner function, amp.core helpers, Particle.__call__/get_amp/get_ls_amp of 35 registered models (round 1/2: BW, BWR, default, BWR2, BWR_below, BWR_normal, BWR_coupling, BWR_LS, BWR_LS2, MultiBWR, GS_rho, Flatte, FlatteC, one, exp, exp_com, x; round 3: Flatte2, FlatteGen, LASS, MultiBW, Kmatrix, KMatrixSingleChannel, KmatrixSimple, interp, interp_c, interp_hist, hist_idx, interp1d3, interp_l3, interp_lagrange, linear_npy, linear_txt, spline_c, spline_c_idx) and 7 sympy denominators against the Float instance at 1e-10 on seeded grids (observed worst 8e-15 for the round-3 models); (S) an independent numpy/scipy evaluation of every docstring formula against the implementation at 2e-9 (scipy CubicSpline not-a-knot, PchipInterpolator, np.interp, own Lagrange / K-matrix linear solves). The harness observes which variant the tree implements (BWR2 conjugated or not, float32 constants or not, MultiBW calling dom_fun or not, interp1d3 stencil range, KmatrixSimple docstring) and compares with that Lean variant, so the check is quiet on the unpatched tree (listed findings) and on the tree with fixes/C15-fix_multibw_dom_fun.diff, C15-fix_interp1d3_sppchip.diff, C15-fix_kmatrix_simple_doc.diff applied. Validated only (oracle, no Lean model): KMatrixSplitLS (does not follow its docstring: listed finding), sppchip (differs from PCHIP in three ways: listed finding), KmatrixSimple with >= 3 channels, hist_idx outside the node range, interp_l3 (no docstring; correspondence only). No documented closed formula (listed with a reason, not checked): Kpi_Swave, pipi_Swave (AmpGen ports). Not verified: Float rounding, TensorFlow kernels (linalg.inv, Bucketize, histogram_fixed_width_bins), sympy (together/cse of KMatrix_single), np.linalg.inv inside spline_xi_matrix beyond the 5 extracted node sets, how get_amp collects momenta/masses from the decay chain for BWR_below / Kmatrix (correspondence only), GS at/below the two-pion threshold, sympy denominators of FlatteGen/Flatte2.",
+    "note": "Model = templates/LineShape.lean.in + templates/LineShapeX.lean.in (round 3, same namespace) instantiated at R (proofs) and Float (execution), templates/InterpAmp.lean.in instantiated at R, Float and core Rat. Tie to the code: (T) coefficient tables (Blatt-Weisskopf, spline_xi_matrix) extracted by running the real functions, theorems re-checked by lake build each run; (C) every tf_pwa.breit_wigner function, amp.core helpers, Particle.__call__/get_amp/get_ls_amp of 35 registered models (round 1/2: BW, BWR, default, BWR2, BWR_below, BWR_normal, BWR_coupling, BWR_LS, BWR_LS2, MultiBWR, GS_rho, Flatte, FlatteC, one, exp, exp_com, x; round 3: Flatte2, FlatteGen, LASS, MultiBW, Kmatrix, KMatrixSingleChannel, KmatrixSimple, interp, interp_c, interp_hist, hist_idx, interp1d3, interp_l3, interp_lagrange, linear_npy, linear_txt, spline_c, spline_c_idx) and 7 sympy denominators against the Float instance at 1e-10 on seeded grids (observed worst 8e-15 for the round-3 models); (S) an independent numpy/scipy evaluation of every docstring formula against the implementation at 2e-9 (scipy CubicSpline not-a-knot, PchipInterpolator, np.interp, own Lagrange / K-matrix linear solves). The harness observes which variant the tree implements (BWR2 conjugated or not, float32 constants or not, MultiBW calling dom_fun or not, interp1d3 stencil range, KmatrixSimple docstring) and compares with that Lean variant, so the same check follows the tree before and after the repairs; they are now fix commits in /repo (babc852 MultiBW dom_fun, 96ef8f5 interp1d3 stencil, 6928971 sppchip PCHIP rule, 6ef67d1 KmatrixSimple docstring, 20c9246 Bprime_q2 q0 dtype; kind 'fixed' in known_findings.jsonl, suppressing nothing: a reverted repair is reported under its own key). Validated only (oracle, no Lean model): KMatrixSplitLS (does not follow its docstring: listed finding), sppchip (scipy PchipInterpolator oracle; the three deviations were repaired by 6928971), KmatrixSimple with >= 3 channels, hist_idx outside the node range, interp_l3 (no docstring; correspondence only). No documented closed formula (listed with a reason, not checked): Kpi_Swave, pipi_Swave (AmpGen ports). Not verified: Float rounding, TensorFlow kernels (linalg.inv, Bucketize, histogram_fixed_width_bins), sympy (together/cse of KMatrix_single), np.linalg.inv inside spline_xi_matrix beyond the 5 extracted node sets, how get_amp collects momenta/masses from the decay chain for BWR_below / Kmatrix (correspondence only), GS at/below the two-pion threshold, sympy denominators of FlatteGen/Flatte2.",
     "technique": "Lean 4 proof over R and C of templates instantiated at Float for differential correspondence with the implementation and at core Rat for exact decide +kernel checks; translator-extracted tables (Blatt-Weisskopf coefficients, spline matrices) checked by decide +kernel; registry inventory",
 }
